@@ -7,6 +7,7 @@ import itertools
 import json
 import os
 import random
+import re
 import subprocess
 import sys
 import tokenize
@@ -742,10 +743,67 @@ IGN_LINES = ["x = 1", "x = 1  # pyrefact: ignore", "# pyrefact:ignore", "#pyrefa
              "y = 2 #\tpyrefact\t:\tignore", "# pyrefact\xa0:\u2003ignore", "s = '# pyrefact: ignore'", "##  pyrefact: skip_file x",
              "# pyrefact ignore", "#pyrefact:skip_fil", "# Pyrefact: ignore", "pyrefact: ignore", "#", ""]
 IGN_SEPS = ["\n", "\r\n", "\r", "\x0c", "\u2028", "\x85", "\x1c"]
+IGN_ODD = ["\x0c", "\u2028", "\x85", "\x1c", "\x0b", "\u2029"]       # str.splitlines breaks here, the tokenizer does not
+IGN_DOC_RE = re.compile(r"#\s*pyrefact\s*:\s*(skip_file|ignore)")    # the documented marker (the harness's own copy)
+
+# the inputs that separate the recogniser before / after the repairs a37c022, 8992e08, 776bcb9
+IGN_FIXED = [
+    # the marker inside a string literal is no comment (776bcb9)
+    "s = '# pyrefact: ignore'\nx = 1\n",
+    's = "# pyrefact: skip_file"  # note\n',
+    's = "# pyrefact: ignore"  # pyrefact: ignore\n',
+    's = """\n# pyrefact: ignore\n"""\nx = 1  # pyrefact: ignore\n',
+    "s = '''a\n  # pyrefact: ignore\nb'''\n",
+    'f"{x}  # pyrefact: ignore"\n',
+    "x = 1  # s = '# pyrefact: ignore'\n",
+    "x = (1,  # pyrefact: ignore\n     2)\ny = 3\n",
+    "x = 1 \\\n  + 2  # pyrefact: ignore\n",
+    # sources the tokenizer rejects: every line whose text matches counts
+    "s = '# pyrefact: ignore\nx = 1\n",
+    "x = (1,  # pyrefact: ignore\ny = 2\n",
+    's = """\n# pyrefact: ignore\nx = 1\n',
+    "if x:\n        y = 1  # pyrefact: ignore\n    z = 2\n",
+    "x = 1 \\",
+    "x = $  # pyrefact: ignore\ns = '# pyrefact: ignore'\n",
+    "x = 1  # pyrefact: ignore\n)\n",
+    "\x00 # pyrefact: ignore\n",
+    # CR-only and mixed files (a37c022: physical lines, not str.splitlines)
+    "x = 1  # pyrefact: ignore\ry = 2\rz = 3  # pyrefact: ignore",
+    "# pyrefact: ignore\r\rx = 1\r",
+    "x = 1\r# pyrefact: ignore\r\ny = 2\n# pyrefact: skip_file\r",
+    "s = '# pyrefact: ignore'\rx = 1  # pyrefact: ignore\r",
+    # an unterminated last line; empty text; blank lines
+    "x = 1\ny = 2  # pyrefact: ignore",
+    "# pyrefact: ignore",
+    "# pyrefact: ignore\n",
+    "# pyrefact: ignore\n\n",
+    "\n\n# pyrefact: ignore\n\nx = 1",
+    "", "\n", "\r", "\r\n", "x",
+]
+for _c in IGN_ODD:
+    IGN_FIXED += [
+        f"s = 'a{_c}b'  # pyrefact: ignore\nx = 1\n",                 # inside a string, the comment after it
+        f"s = 'a{_c}# pyrefact: ignore'\nx = 1\n",                    # the marker after the odd character, in a string
+        f"x = 1  # note{_c}pyrefact: ignore\ny = 2\n",                # inside the comment, before the marker text
+        f"x = 1  #{_c}pyrefact{_c}:{_c}ignore\ny = 2\n",              # as the \s of the regex
+        f"x = 1  # pyrefact: ignore{_c}tail\ny = 2  # b{_c}\n",       # after the marker
+        f"x = 1{_c}# pyrefact: ignore\n",                             # outside strings and comments
+        f"x = 1  # a{_c}b\ry = 2  # pyrefact: ignore{_c}",             # CR file, unterminated last line
+    ]
+
+
+def ign_coms(s):
+    """the model's `coms` input: zero-based physical lines with a COMMENT token that matches the marker, by CPython's
+    tokenizer (computed here, not taken from pyrefact); None if it raises"""
+    try:
+        toks = tokenize.generate_tokens(io.StringIO(s, newline="").readline)
+        return sorted({t.start[0] - 1 for t in toks if t.type == tokenize.COMMENT and IGN_DOC_RE.search(t.string)})
+    except (tokenize.TokenError, SyntaxError, ValueError):
+        return None
 
 
 def ign_cases(rnd, n_random):
-    strings = []
+    strings = list(IGN_FIXED)
     for a in IGN_LINES:
         strings.append(a)
         for sep in IGN_SEPS:
@@ -753,10 +811,13 @@ def ign_cases(rnd, n_random):
             strings.append("z = 3" + sep + a + sep)
     for a, b in itertools.permutations(IGN_LINES[:8], 2):
         strings.append(a + "\n" + b + "\n")
+        strings.append(a + "\r" + b)
     base = "# pyrefact: ignore"
-    alphabet = [" ", "\t", "\x0c", "\xa0", "#", ":", "p", "e", "_", "\n", "\u2028", "x"]
+    alphabet = [" ", "\t", "\x0c", "\xa0", "#", ":", "p", "e", "_", "\n", "\r", "\u2028", "\x85", "x", "'", '"', "(", "\\"]
+    seeds = [base, "#pyrefact:skip_file", "a  #  pyrefact :  ignore b", "s = '# pyrefact: ignore'  # pyrefact: ignore",
+             "x = 1\n# pyrefact: ignore\ny = '''\n# pyrefact:ignore\n'''"]
     for _ in range(n_random):
-        t = list(rnd.choice([base, "#pyrefact:skip_file", "a  #  pyrefact :  ignore b"]))
+        t = list(rnd.choice(seeds))
         for _ in range(rnd.randint(1, 3)):
             k = rnd.random()
             i = rnd.randrange(len(t) + 1)
@@ -767,15 +828,21 @@ def ign_cases(rnd, n_random):
             elif t:
                 t[min(i, len(t) - 1)] = rnd.choice(alphabet)
         strings.append("".join(t))
-    return strings
+    return list(dict.fromkeys(strings))
 
 
 def ign_ranges(s):
+    """every insertion point -1..n+1, and the ranges over the interesting points: text ends, line starts / ends (both
+    sides of every terminator and of every str.splitlines-only break), the `#`s; a few inverted ranges"""
     n = len(s)
-    pts = sorted({0, 1, n // 3, n // 2, max(n - 1, 0), n, n + 1} | {i for i, c in enumerate(s) if c in "\n\r\x0c\u2028\x85\x1c#"}
-                 | {i + 1 for i, c in enumerate(s) if c in "\n\r\x0c\u2028\x85\x1c"})
-    pts = pts[:14]
-    return [(a, b) for a in pts for b in pts if a <= b]
+    odd = "\n\r\x0c\x0b\u2028\u2029\x85\x1c"
+    pts = sorted({0, 1, n // 3, n // 2, max(n - 1, 0), n, n + 1} | {i for i, c in enumerate(s) if c in odd + "#"}
+                 | {i + 1 for i, c in enumerate(s) if c in odd})
+    if len(pts) > 16:
+        pts = pts[:8] + pts[-8:]
+    rs = ([(p, p) for p in range(-1, n + 2)] + [(a, b) for a in pts for b in pts if a < b]
+          + [(b, a) for a in pts[:4] for b in pts[-3:] if a < b])
+    return list(dict.fromkeys(rs))
 
 
 # ---------------------------------------------------------------------------------------------
@@ -1116,18 +1183,25 @@ def _check(run: common.Run):
     evaluations += hist["cli_printed_lines"]
     common.log(f"[c13] cli done {round(_t.time() - t0, 1)}s")
 
-    # ---- 8. has_ignore_comment
+    # ---- 8. has_ignore_comment (the tokenizer's verdict `coms` is an input of the model, computed here from CPython)
     ign = []
     for s in ign_cases(rnd, 150 if quick else 3000):
         rs = ign_ranges(s)
-        ign.append((s, [(r, bool(core.has_ignore_comment(s, core.Range(*r)))) for r in rs]))
-        hist["ignore_true"] += sum(v for _, v in ign[-1][1])
+        coms = ign_coms(s)
+        plines = core.split_lines(s)
+        ign.append((s, coms, [len(l) for l in plines], [(r, bool(core.has_ignore_comment(s, core.Range(*r)))) for r in rs]))
+        hist["ignore_true"] += sum(v for _, v in ign[-1][3])
+        hist["ignore_untokenizable"] += coms is None
+        hist["ignore_marker_not_comment"] += coms is not None and sum(bool(IGN_DOC_RE.search(l)) for l in plines) > len(coms)
+        hist["ignore_splitlines_differs"] += plines != s.splitlines(keepends=True)
         evaluations += len(rs)
     for k in range(0, len(ign), 200):
         shard = ign[k:k + 200]
-        add_file(f"ign_{k // 200}.v", HEADER + "Definition cases : list ign_case := [\n "
-                 + ";\n ".join("(" + gn(s) + ", " + glist(rs, lambda x: f"({gpair(x[0])}, {gbool(x[1])})") + ")" for s, rs in shard)
-                 + "\n].\nEval vm_compute in (bad_idx ign_case_ok cases).\n", "ign", [s for s, _ in shard])
+        add_file(f"ign_{k // 200}.v", HEADER + "Definition n (x : N) : nat := N.to_nat x.\nDefinition cases : list ign_case := [\n "
+                 + ";\n ".join("(" + gn(s) + ", " + gopt(coms, lambda cs: glist(cs, lambda c: f"n {c}")) + ", " + glist(lens, gz) + ", "
+                                + glist(rs, lambda x: f"({gpair(x[0])}, {gbool(x[1])})") + ")" for s, coms, lens, rs in shard)
+                 + "\n].\nEval vm_compute in (bad_idx ign_case_ok cases).\n", "ign",
+                 [{"source": s, "tokenizer_comment_lines": coms} for s, coms, _, _ in shard])
     hist["ignore_strings"] = len(ign)
 
     # ---- run the model
@@ -1299,7 +1373,9 @@ def _check(run: common.Run):
                "failures_matching_known_findings": dict(sweep_known), "api_family_failures": len(api_fail)},
         unmodelled=["processing.find_replace / the matcher (C12): the wrappers are modelled over the list of spans it yields",
                     "ast.parse positions (CPython): tok_loc is their reference definition, validated on every node",
-                    "pattern_matching.sub/subn (C14)", "the file walk and argument parsing of the command-line tool"],
+                    "pattern_matching.sub/subn (C14)", "the file walk and argument parsing of the command-line tool",
+                    "the CPython tokenizer inside core.has_ignore_comment (_ignore_comment_linenos): its verdict (lines with a "
+                    "matching COMMENT token, or 'tokenize raised') is an input of the model, recomputed by harness/c13.py::ign_coms"],
         trusted_base=common.TRUSTED_BASE_COMMON + [
             "harness/c13.py: node -> (decorator positions, attributes, is_def) reader, fake-node builder, digest mirror "
             "(dg/str_obs/grid_obs are re-implemented in Python; a mismatch in either direction is reported)",
